@@ -12,19 +12,22 @@ for d in sorted(glob.glob(os.path.join(VERIF, "seeded", "C*_*"))):
     res = json.load(open(os.path.join(d, "result.json"))) if os.path.exists(os.path.join(d, "result.json")) else None
     caught, how = "not run", ""
     if res:
+        best = None
+        own = name.split("_")[0]
         for c, v in res["checks"].items():
             lines = v.get("lines", [])
             vio = [l for l in lines if l.startswith("VIOLATION")]
             if v["exit"] == 1 and vio:
-                caught = f"{c}: VIOLATION" + (" (no-failing-input-found)" if "no-failing-input-found" in vio[0] else "")
+                concrete = "no-failing-input-found" not in vio[0]
+                score = (2 if concrete else 0) + (1 if c == own else 0)
                 fi = [l.strip() for l in lines if l.strip().startswith(("failing input", "broken obligation"))]
-                how = (fi[0] if fi else "")[:260]
-            elif "VIOLATION" in caught:
-                continue  # another check already reported it
-            elif v["exit"] == 0:
-                caught = f"{c}: MISSED"
-            else:
-                caught = f"{c}: exit {v['exit']}"
+                cand = (score, f"{c}: VIOLATION" + ("" if concrete else " (no-failing-input-found)"), (fi[0] if fi else "")[:260])
+                if best is None or cand[0] > best[0]:
+                    best = cand
+            elif best is None:
+                caught = f"{c}: MISSED" if v["exit"] == 0 else f"{c}: exit {v['exit']}"
+        if best:
+            caught, how = best[1], best[2]
     cstr = "—"
     if conf:
         cstr = "yes" if conf.get("confirmed") else f"NO ({ {k: conf.get(k) for k in ('patch_applies', 'demo_clean_exit', 'demo_changed_exit', 'unit_ok')} })"
